@@ -20,6 +20,7 @@ pub enum Step {
     Error(ErrorKind),
     Eof,
     Misreport(usize), // how many bytes beyond the buffer length are claimed
+    Nested(usize),            // before delivering this many bytes, read() itself hashes another stream and a file
     ErrorWith(ErrorKind, u8), // a hard error whose payload is itself an error value of the library (0..3) or an io::Error
     Lie(usize),       // claims this many bytes (within the buffer) without writing any
     InterruptBurst(usize),        // this many interruptions in a row (logged as ONE event with a count)
@@ -190,6 +191,37 @@ impl Read for ScriptReader {
                     kind
                 ));
                 Err(std::io::Error::new(kind, "scripted error"))
+            }
+            Step::Nested(k) if remaining > 0 => {
+                // re-entrancy: this reader hashes something else on the same thread (a digest-list reader would)
+                let inner: Vec<u8> = (0..300u32).map(|i| (i * 7 + 3) as u8).collect();
+                let mut cur = std::io::Cursor::new(inner.clone());
+                let nested_ok = std::panic::catch_unwind(std::panic::AssertUnwindSafe(|| {
+                    let a = tlsh::hash_stream(&mut cur).map(|h| h.to_string()).ok();
+                    let b = tlsh::hash_buf(&inner).map(|h| h.to_string()).ok();
+                    a == b && a.is_some()
+                }))
+                .unwrap_or(false);
+                let n = k.max(1).min(buf.len()).min(remaining);
+                if let Content::Explicit(d) = &self.data {
+                    buf[..n].copy_from_slice(&d[self.off..self.off + n]);
+                }
+                // the nested call must have worked; if it did not, this reader reports it as a hard error of a
+                // kind no script uses, so that the trace cannot be explained by Stream.tla
+                if !nested_ok {
+                    self.log.push(format!("{{\"e\":\"read\",\"buflen\":{},\"ret\":{{\"kind\":\"nested_failed\"}}}}", buf.len()));
+                    return Err(std::io::Error::new(ErrorKind::Other, "nested hashing failed"));
+                }
+                self.log.push(format!(
+                    "{{\"e\":\"read\",\"buflen\":{},\"ret\":{{\"kind\":\"ok\",\"data\":{}}}}}",
+                    buf.len(), bytes_json(&buf[..n])
+                ));
+                self.off += n;
+                Ok(n)
+            }
+            Step::Nested(_) => {
+                self.log.push(format!("{{\"e\":\"read\",\"buflen\":{},\"ret\":{{\"kind\":\"eof\"}}}}", buf.len()));
+                Ok(0)
             }
             Step::ErrorWith(kind, what) => {
                 self.log.push(format!(
@@ -365,6 +397,13 @@ pub fn run_c12(out: &mut Out, rng: &mut Rng, thorough: bool, only: Option<&str>,
             }
             run_stream(out, *v, Content::Explicit(rng.bytes(n)), script, false);
         }
+        // re-entrancy: a reader whose read() hashes another stream on the same thread (first read, a later read)
+        for at in [0usize, 2] {
+            let n = 400;
+            let mut script = vec![Step::Deliver(100), Step::Deliver(100), Step::Deliver(100), Step::Deliver(100), Step::Eof];
+            script[at] = Step::Nested(100);
+            run_stream(out, *v, Content::Explicit(rng.bytes(n)), script, false);
+        }
         // hard errors that CARRY a payload: the library's own error values, a nested io::Error
         for what in 0..5u8 {
             let n = 300;
@@ -537,6 +576,36 @@ fn files(out: &mut Out, rng: &mut Rng, thorough: bool, only: Option<&str>) {
                 let o = v.hash_file(&link);
                 let _ = std::fs::remove_file(&link);
                 out.emit(Ev::new("file_err").str("v", v.name()).str("why", "missing").raw("r", &outcome_json(&o)).meas(o.a, &o.p));
+            }
+        }
+        // a regular file that GROWS while it is hashed (a log being written): whatever prefix gets hashed, the call
+        // returns a hash or a generator error - the content is not judged, the outcome kind is
+        {
+            let path = std::path::PathBuf::from(format!("{}/grow-{}-{}.bin", dir, std::process::id(), v.name()));
+            let block = rng.bytes(4 * MIB + 12_345);
+            if std::fs::write(&path, &block).is_ok() {
+                let stop = std::sync::Arc::new(std::sync::atomic::AtomicBool::new(false));
+                let (p2, s2) = (path.clone(), stop.clone());
+                let w = std::thread::spawn(move || {
+                    use std::io::Write;
+                    if let Ok(mut f) = std::fs::OpenOptions::new().append(true).open(&p2) {
+                        let chunk = vec![0x5au8; 256 * 1024];
+                        let mut written = 0usize;
+                        while !s2.load(std::sync::atomic::Ordering::Relaxed) && written < 64 * MIB {
+                            if f.write_all(&chunk).is_err() {
+                                break;
+                            }
+                            written += chunk.len();
+                        }
+                    }
+                });
+                std::thread::sleep(std::time::Duration::from_millis(2));
+                let o = v.hash_file(&path);
+                stop.store(true, std::sync::atomic::Ordering::Relaxed);
+                let _ = w.join();
+                let _ = std::fs::remove_file(&path);
+                let kind = if !o.p.is_empty() { "Panic" } else if matches!(o.v, Some(Err((ref c, _))) if c == "IO") { "IOError" } else { "Hash" };
+                out.emit(Ev::new("file_any").str("v", v.name()).str("why", "growing").str("kind", kind).str("panic", &o.p).meas(o.a, ""));
             }
         }
         // sysfs attributes: regular files by their metadata, which reports one page whatever they deliver
